@@ -70,52 +70,61 @@ func RunMgmtStorm(k *fw.Case) {
 			}
 		}()
 	}
-	mr := rand.New(rand.NewSource(r.Int63()))
-	cur := s0.after
-	for i := 0; i < 36; i++ {
-		time.Sleep(time.Duration(50+mr.Intn(250)) * time.Microsecond)
-		func() {
-			defer func() {
-				if x := recover(); x != nil {
-					k.Count("management_panics", 1)
-				}
-			}()
-			switch mr.Intn(12) {
-			case 0:
-				u := genUpdate(mr, tg, cur, updFull)
-				if apply(p, u) == nil {
-					cur = u.after
-				}
-			case 1, 2:
-				u := genUpdate(mr, tg, cur, updIncremental)
-				if apply(p, u) == nil {
-					cur = u.after
-				}
-			case 3:
-				u := genUpdate(mr, tg, cur, updRemoval)
-				if apply(p, u) == nil {
-					cur = u.after
-				}
-			case 4:
-				p.ClearPoolRules()
-				cur = verState{}
-				k.Count("clears_during_requests", 1)
-			case 5, 9, 10, 11:
-				p.SetExecModel(1 + mr.Intn(4))
-				k.Count("exec_model_changes_during_requests", 1)
-			case 6:
-				p.IsExist(alphabet)
-				p.GetRulesNumber()
-			case 7:
-				p.GetRuleSalience("a")
-				p.GetRuleDesc("b")
-				p.GetExecModel()
-			default:
-				apply(p, genUpdate(mr, tg, cur, updFailing))
+	// two managers: management calls are also concurrent with each other
+	var mwg sync.WaitGroup
+	for mg := 0; mg < 2; mg++ {
+		mwg.Add(1)
+		mr := rand.New(rand.NewSource(r.Int63()))
+		go func() {
+			defer mwg.Done()
+			cur := s0.after
+			for i := 0; i < 20; i++ {
+				time.Sleep(time.Duration(50+mr.Intn(250)) * time.Microsecond)
+				func() {
+					defer func() {
+						if x := recover(); x != nil {
+							k.Count("management_panics", 1)
+						}
+					}()
+					switch mr.Intn(12) {
+					case 0:
+						u := genUpdate(mr, tg, cur, updFull)
+						if apply(p, u) == nil {
+							cur = u.after
+						}
+					case 1, 2:
+						u := genUpdate(mr, tg, cur, updIncremental)
+						if apply(p, u) == nil {
+							cur = u.after
+						}
+					case 3:
+						u := genUpdate(mr, tg, cur, updRemoval)
+						if apply(p, u) == nil {
+							cur = u.after
+						}
+					case 4:
+						p.ClearPoolRules()
+						cur = verState{}
+						k.Count("clears_during_requests", 1)
+					case 5, 9, 10, 11:
+						p.SetExecModel(1 + mr.Intn(4))
+						k.Count("exec_model_changes_during_requests", 1)
+					case 6:
+						p.IsExist(alphabet)
+						p.GetRulesNumber()
+					case 7:
+						p.GetRuleSalience("a")
+						p.GetRuleDesc("b")
+						p.GetExecModel()
+					default:
+						apply(p, genUpdate(mr, tg, cur, updFailing))
+					}
+					atomic.AddInt64(&mgmt, 1)
+				}()
 			}
-			atomic.AddInt64(&mgmt, 1)
 		}()
 	}
+	mwg.Wait()
 	atomic.StoreInt32(&stop, 1)
 	if !waitDone(&wg, 3*progressBound) {
 		k.Inconclusive("requests did not stop")
